@@ -195,6 +195,10 @@ def countWhile256 (t : List Nat) (lo hi : Nat) (p : U256 → Bool) : Except Stri
   let n ← countWhileAux (fun i => tbl256 t (UInt64.ofNat i)) p (hi + 1 - lo) lo 0
   pure (UInt64.ofNat n)
 
+/-- the `k` little-endian bytes of `n` — what `Hasher::write_u32 / write_i32 / write_u64 / write_u128` feed to
+`Hasher::write` on a little-endian target (std's default methods) -/
+def leBytes (n k : Nat) : List UInt8 := (List.range k).map fun i => UInt8.ofNat (n / 256 ^ i % 256)
+
 /-- `T[i][j]` of a table `[[BID_UINT128; inner]; outer]` -/
 def tbl128_2 (t : List Nat) (inner : Nat) (i j : UInt64) : Except String U128 :=
   if j.toNat < inner then
